@@ -6,7 +6,7 @@ from facts import short, strip_generics, show_chain, walk_chain, chain_calls
 
 PROPERTY = "C02"
 TITLE = "Writing one value never changes any other value"
-NEEDS = ("facts",)
+NEEDS = ("facts", "syn")
 TECHNIQUE = "static analysis: def-use dataflow on type-checked MIR (store width vs object width, copy length provenance), raw-store inventory (who-may-call)"
 EXPLANATION = (
     "Engine A (MIR def-use chains, resolved callees): (a) every store/load whose offset is data-dependent on "
@@ -601,6 +601,41 @@ def r02j(ctx, run):
               "a path through compile_stmt stores into the assignment's destination at line %d and again at line %d" % ((twice[0][0].ln, twice[0][1].ln) if twice else (0, 0)))
 
 
+def r02k(ctx, run):
+    """a conversion never writes into its source: the functions of the cast family (a source value `val`, an optional destination `memory`) build their
+    result in the destination they are given or in memory allocated for it (`unwrap_or_alloca`); no MemoryLoc that is written through is made from the
+    source value's address.  `T.(x)` reads `x`; with the result built in place `x` would hold the converted bytes afterwards."""
+    import prov
+    from synq import canon
+    M = "codegen/src/compiler/mod.rs"
+    fam = []
+    for f in ctx.syn.fns_in(M):
+        if f.body is None or f.in_test:
+            continue
+        names = f.param_names()
+        tys = [str(p_.get("ty", "")) for p_ in f.params]
+        if "val" in names and any(n == "memory" and "MemoryLoc" in t for n, t in zip(names, tys)):
+            fam.append(f)
+    if len(fam) < 4:
+        raise LookupError("cast family (val, memory: Option<MemoryLoc>) in compiler/mod.rs: %d" % len(fam))
+    for f in fam:
+        P = prov.Prov(f)
+        bad, dests = [], [0]
+
+        def on(n, sc, P=P, bad=bad, dests=dests):
+            if n.get("k") == "call" and canon(n["f"]).endswith(("MemoryLoc::from_addr", "MemoryLoc::from_stack")) and n["a"]:
+                tags = P.tags(n["a"][0], sc)
+                if "param:val" in tags and "m:stack_addr" not in tags and "m:create_sized_stack_slot" not in tags:
+                    bad.append((n["ln"], sorted(t for t in tags if t.startswith(("param:", "m:")))[:6]))
+            if n.get("k") == "mcall" and n["m"] == "unwrap_or_alloca":
+                dests[0] += 1
+        P.visit(on)
+        run.check(not bad, f.site(bad[0][0] if bad else None), "%s: result built in the given destination or fresh memory (%d unwrap_or_alloca)" % (f.qual, dests[0]), f.qual,
+                  "cast-writes-source", f.file, bad[0][0] if bad else f.ln,
+                  "%s makes a MemoryLoc from the address of its SOURCE value (line %d, from %s) and builds the result there: after `y := T.(x)` the variable `x` holds the "
+                  "converted bytes - a conversion must leave its source untouched" % (f.qual, bad[0][0] if bad else 0, bad[0][1] if bad else ""))
+
+
 def rules(ctx):
     return [
         Rule("R02.a", "tag stores/loads (offset derived from discriminant_offset) move exactly one byte", 9, r02a),
@@ -611,6 +646,7 @@ def rules(ctx):
         Rule("R02.h", "in-place construction of aggregates only into fresh memory: an assignment's value is complete before the destination is written", 4, r02h),
         Rule("R02.i", "an assignment compiles its destination (and its value) once on every path", 2, r02i),
         Rule("R02.j", "an assignment stores into its destination once, a whole value (no member-wise stores into the live destination)", 3, r02j),
+        Rule("R02.k", "a conversion never writes into its source: the cast family builds its result in the given destination or in fresh memory", 4, r02k),
         Rule("R02.g", "stack slots are created per use site, never cached in a container; a call's spill slot is created for that call", 2, r02g),
         Rule("R02.f", "every MemoryLoc::write_all receives a value already converted to the type it is told to store", 5, r02f),
     ]
